@@ -20,7 +20,7 @@ RAISING = (ast.Call, ast.Subscript, ast.Raise, ast.Assert, ast.Delete, ast.Await
 
 class Node:
     __slots__ = ("id", "kind", "ast", "succ", "pred", "line", "note", "cfg",
-                 "_calls", "pattern_subject", "pattern_value", "lexical")
+                 "_calls", "pattern_subject", "pattern_value", "lexical", "raises")
 
     def __init__(self, cfg: "CFG", kind: str, node: ast.AST | None, note: str = ""):
         self.cfg = cfg
@@ -36,6 +36,7 @@ class Node:
         self.pattern_subject = None   # for match-derived tests
         self.pattern_value = None
         self.lexical: tuple = ()      # enclosing with-items / try bodies (ast nodes)
+        self.raises: frozenset = frozenset()
 
     # ------------------------------------------------------------------
     def link(self, label: str, dst: "Node"):
@@ -157,6 +158,59 @@ class _Ctx:
         return c
 
 
+class _RaiseExit:
+    """Outermost frame: the exception escapes the function."""
+    def __init__(self, node: Node):
+        self.node = node
+
+    def targets(self, raises) -> list[Node]:
+        return [self.node] if raises else []
+
+
+class _Frame:
+    """A try statement's handlers (first matching handler wins)."""
+    def __init__(self, handlers, parent, effects):
+        self.handlers = handlers      # [(types, handler_node)]
+        self.parent = parent
+        self.effects = effects
+
+    def targets(self, raises) -> list[Node]:
+        out: list[Node] = []
+        rest = set()
+        for e in raises:
+            if e == "ANY" or self.effects is None:
+                catch_all = False
+                for types, hn in self.handlers:
+                    if hn not in out:
+                        out.append(hn)
+                    if any(t in ("Exception", "BaseException") for t in types):
+                        catch_all = True
+                        break
+                if not catch_all:
+                    rest.add(e)
+                continue
+            for types, hn in self.handlers:
+                if self.effects.caught_by(e, types):
+                    if hn not in out:
+                        out.append(hn)
+                    break
+            else:
+                rest.add(e)
+        for t in self.parent.targets(rest):
+            if t not in out:
+                out.append(t)
+        return out
+
+
+class _Finally:
+    """Exceptions run the finally copy, which then re-raises to the parent."""
+    def __init__(self, entry: Node):
+        self.entry = entry
+
+    def targets(self, raises) -> list[Node]:
+        return [self.entry] if raises else []
+
+
 def may_raise(node: ast.AST) -> bool:
     for n in A.walk_no_nested(node):
         if isinstance(n, (ast.Call, ast.Subscript, ast.Raise, ast.Assert, ast.Delete,
@@ -167,7 +221,8 @@ def may_raise(node: ast.AST) -> bool:
 
 class CFG:
     def __init__(self, func: FuncInfo | ast.FunctionDef, relpath: str = "",
-                 exc_everywhere: bool = False):
+                 exc_everywhere: bool = False, effects=None):
+        self.effects = effects
         if isinstance(func, FuncInfo):
             self.func = func
             fn = func.node
@@ -184,7 +239,8 @@ class CFG:
         self.entry = Node(self, "entry", None)
         self.exit = Node(self, "exit", None)          # normal return / fall off
         self.raise_exit = Node(self, "raise", None)   # exception escapes
-        ctx = _Ctx(None, None, self.exit, self.raise_exit, exc_everywhere)
+        ctx = _Ctx(None, None, self.exit, _RaiseExit(self.raise_exit),
+                   exc_everywhere or effects is not None)
         first = self._block(fn.body, self.exit, ctx)
         self.entry.link("next", first)
 
@@ -200,8 +256,21 @@ class CFG:
         return n
 
     def _exc_edge(self, n: Node, node: ast.AST, ctx: _Ctx):
-        if ctx.in_try and may_raise(node):
-            n.link("exc", ctx.exc)
+        if not ctx.in_try:
+            return
+        if self.effects is not None and self.func is not None:
+            stmt = node if isinstance(node, ast.stmt) else None
+            r = self.effects.node_raises([node], self.func, stmt)
+            if isinstance(node, ast.stmt) and isinstance(node, ast.Assert):
+                r = set(r) | {"AssertionError"}
+        else:
+            r = {"ANY"} if may_raise(node) else set()
+        if not r:
+            return
+        n.raises = frozenset(set(n.raises) | set(r))
+        for t in ctx.exc.targets(r):
+            if not any(l == "exc" and d is t for l, d in n.succ):
+                n.link("exc", t)
 
     def _stmt(self, st: ast.stmt, nxt: Node, ctx: _Ctx) -> Node:
         if isinstance(st, ast.If):
@@ -244,7 +313,15 @@ class CFG:
             return n
         if isinstance(st, ast.Raise):
             n = self._mk("stmt", st, ctx)
-            n.link("raise", ctx.exc)
+            r = {"ANY"}
+            if self.effects is not None and self.func is not None and st.exc is not None:
+                e = st.exc.func if isinstance(st.exc, ast.Call) else st.exc
+                nm = self.effects.canon(ast.unparse(e))
+                if nm in self.effects.exc_classes:
+                    r = {nm}
+            n.raises = frozenset(r)
+            for t in ctx.exc.targets(r):
+                n.link("raise", t)
             return n
         if isinstance(st, ast.Break):
             if ctx.brk is None:
@@ -290,30 +367,37 @@ class CFG:
         lex = ctx.lexical + (st,)
         if st.finalbody:
             fin_n = self._block(st.finalbody, nxt, ctx)
-            fin_e = self._block(st.finalbody, ctx.exc, ctx)
+            rer = self._mk("reraise", st, ctx)
+            for t in ctx.exc.targets({"ANY"}):
+                rer.link("raise", t)
+            fin_e = self._block(st.finalbody, rer, ctx)
             fin_r = self._block(st.finalbody, ctx.ret, ctx)
             brk = self._block(st.finalbody, ctx.brk, ctx) if ctx.brk is not None else None
             cont = self._block(st.finalbody, ctx.cont, ctx) if ctx.cont is not None else None
-            outer = ctx.but(exc=fin_e, ret=fin_r, brk=brk, cont=cont, in_try=True)
+            outer = ctx.but(exc=_Finally(fin_e), ret=fin_r, brk=brk, cont=cont, in_try=True)
             after = fin_n
         else:
             outer = ctx
             after = nxt
-        disp = self._mk("dispatch", st, ctx)
-        catch_all = False
+        handlers = []
         for h in st.handlers:
             hn = self._mk("handler", h, ctx)
             hn.link("next", self._block(h.body, after, outer))
-            label = "catch:" + (ast.unparse(h.type) if h.type is not None else "*")
-            disp.link(label, hn)
-            if h.type is None or ast.unparse(h.type) in ("Exception", "BaseException"):
-                catch_all = True
-                break
-        if not catch_all:
-            disp.link("uncaught", outer.exc)
+            if h.type is None:
+                types = ["BaseException"]
+            elif isinstance(h.type, ast.Tuple):
+                types = [ast.unparse(e) for e in h.type.elts]
+            else:
+                types = [ast.unparse(h.type)]
+            if self.effects is not None:
+                types = [self.effects.canon(t) for t in types]
+            handlers.append((types, hn))
         orelse = self._block(st.orelse, after, outer)
-        body_ctx = outer.but(exc=disp, in_try=True, lexical=lex) if st.handlers \
-            else outer.but(lexical=lex)
+        if st.handlers:
+            body_ctx = outer.but(exc=_Frame(handlers, outer.exc, self.effects),
+                                 in_try=True, lexical=lex)
+        else:
+            body_ctx = outer.but(lexical=lex)
         return self._block(st.body, orelse, body_ctx)
 
     def _match(self, st: ast.Match, nxt: Node, ctx: _Ctx) -> Node:
@@ -377,7 +461,7 @@ class CFG:
     def reach(self, starts: Iterable[Node], blocked: Iterable[Node] = (),
               blocked_edges: Iterable[tuple[Node, str]] = (),
               skip_labels: Iterable[str] = (), normal_blocked: Iterable[Node] = (),
-              include_starts: bool = True) -> set[Node]:
+              include_starts: bool = True, tracker=None, start_state=None) -> set[Node]:
         """Nodes reachable from *starts*.
 
         blocked        nodes that cannot be entered
@@ -389,6 +473,9 @@ class CFG:
         be = set((n.id, l) for n, l in blocked_edges)
         skip = set(skip_labels)
         nb = set(normal_blocked)
+        if tracker is not None:
+            return self._reach_tracked(starts, blocked, be, skip, nb, include_starts,
+                                       tracker, start_state)
         seen: set[Node] = set()
         todo = []
         for s in starts:
@@ -410,19 +497,53 @@ class CFG:
                 todo.append(d)
         return seen
 
+    def _reach_tracked(self, starts, blocked, be, skip, nb, include_starts, tracker,
+                       start_state) -> set[Node]:
+        st0 = start_state if start_state is not None else tracker.initial()
+        seen: set[tuple[int, tuple]] = set()
+        out: set[Node] = set()
+        todo = []
+        for s in starts:
+            if s in blocked:
+                continue
+            seen.add((s.id, st0))
+            if include_starts:
+                out.add(s)
+            todo.append((s, st0))
+        while todo:
+            n, st = todo.pop()
+            for label, d in n.succ:
+                if label in skip or (n.id, label) in be:
+                    continue
+                if n in nb and label != "exc":
+                    continue
+                if d in blocked:
+                    continue
+                st2 = tracker.step(n, label, st)
+                if st2 is None:
+                    continue
+                key = (d.id, st2)
+                if key in seen:
+                    continue
+                seen.add(key)
+                out.add(d)
+                todo.append((d, st2))
+        return out
+
     def reachable_nodes(self) -> set[Node]:
         return self.reach([self.entry])
 
-    def dominated(self, target: Node, by: Iterable[Node], effect: bool = True) -> bool:
+    def dominated(self, target: Node, by: Iterable[Node], effect: bool = True,
+                  tracker=None) -> bool:
         """Every entry->target path passes through (the completed effect of)
         one of *by*."""
         by = list(by)
         if target in by:
             return True
         if effect:
-            r = self.reach([self.entry], normal_blocked=by)
+            r = self.reach([self.entry], normal_blocked=by, tracker=tracker)
         else:
-            r = self.reach([self.entry], blocked=by)
+            r = self.reach([self.entry], blocked=by, tracker=tracker)
         return target not in r
 
     def always_followed(self, start: Node, by: Iterable[Node],
@@ -446,12 +567,13 @@ class CFG:
                     out.append((n, lab))
         return out
 
-    def guarded(self, target: Node, atom_pred: Callable[[Node], str | None]) -> bool:
+    def guarded(self, target: Node, atom_pred: Callable[[Node], str | None],
+                tracker=None) -> bool:
         """*target* is reachable only through an edge on which the fact holds."""
         edges = self.guard_edges(atom_pred)
         if not edges:
             return False
-        r = self.reach([self.entry], blocked_edges=edges)
+        r = self.reach([self.entry], blocked_edges=edges, tracker=tracker)
         return target not in r
 
     def can_reach(self, a: Node, b: Node, **kw) -> bool:
@@ -459,7 +581,8 @@ class CFG:
 
     def paths(self, start: Node | None = None, stop: Callable[[Node], bool] | None = None,
               bound: int = 5000, max_visits: int = 1,
-              skip_labels: Iterable[str] = ()) -> list[list[tuple[Node, str]]]:
+              skip_labels: Iterable[str] = (), tracker=None,
+              start_state=None) -> list[list[tuple[Node, str]]]:
         """Enumerate paths as lists of (node, label-taken-out-of-node).  The
         last element has label '' (exit/raise/stop node)."""
         start = start or self.entry
@@ -468,7 +591,10 @@ class CFG:
         visits: dict[int, int] = {}
         path: list[tuple[Node, str]] = []
 
-        def dfs(n: Node):
+        state0 = (start_state if start_state is not None else tracker.initial()) \
+            if tracker is not None else None
+
+        def dfs(n: Node, st=None):
             if len(out) > bound:
                 raise AnalysisError(
                     f"more than {bound} paths through {self.qualname}")
@@ -480,12 +606,17 @@ class CFG:
             visits[n.id] = visits.get(n.id, 0) + 1
             succ = [(l, d) for l, d in n.succ if l not in skip]
             for label, d in succ:
+                st2 = st
+                if tracker is not None:
+                    st2 = tracker.step(n, label, st)
+                    if st2 is None:
+                        continue
                 path.append((n, label))
-                dfs(d)
+                dfs(d, st2)
                 path.pop()
             visits[n.id] -= 1
 
-        dfs(start)
+        dfs(start, state0)
         return out
 
     def loc(self, n: Node) -> str:
@@ -494,7 +625,7 @@ class CFG:
     def describe(self, path: list[tuple[Node, str]], limit: int = 40) -> list[str]:
         out = []
         for n, l in path:
-            if n.kind in ("entry", "with_exit", "loop", "dispatch"):
+            if n.kind in ("entry", "with_exit", "loop", "reraise"):
                 continue
             lab = f" [{l}]" if l not in ("next", "") else ""
             out.append(f"{self.relpath}:{n.line}: {n.text(90)}{lab}")
@@ -504,8 +635,8 @@ class CFG:
 _cfg_cache: dict[tuple, CFG] = {}
 
 
-def cfg_of(func: FuncInfo, exc_everywhere: bool = False) -> CFG:
-    key = (id(func.node), exc_everywhere)
+def cfg_of(func: FuncInfo, exc_everywhere: bool = False, effects=None) -> CFG:
+    key = (id(func.node), exc_everywhere, id(effects))
     if key not in _cfg_cache:
-        _cfg_cache[key] = CFG(func, exc_everywhere=exc_everywhere)
+        _cfg_cache[key] = CFG(func, exc_everywhere=exc_everywhere, effects=effects)
     return _cfg_cache[key]
